@@ -25,7 +25,20 @@ def main(argv=None):
         return 2
     chk = Check(pid, tier)
     try:
-        mod.run(chk)
+        cfgs = ["py3"]
+        if tier == "thorough" and getattr(mod, "CONFIG_SENSITIVE", False):
+            cfgs = ["py3", "py3-old", "gmpy2", "gmpy"]
+        from checks import common
+        for cfg in cfgs:
+            common.DEFAULT_CONFIG[0] = cfg
+            n0 = len(chk.obligations)
+            mod.run(chk)
+            if cfg != "py3":
+                # label the obligations of the additional build configurations
+                chk.obligations[n0:] = [(r, "%s [%s]" % (d, cfg), ok, nt) for r, d, ok, nt in chk.obligations[n0:]]
+        common.DEFAULT_CONFIG[0] = "py3"
+        if len(cfgs) > 1:
+            chk.configs = cfgs
         rc = chk.finish()
     except AnalysisError as e:
         print("ANALYSIS-ERROR property=%s: %s" % (pid, e))
